@@ -281,6 +281,7 @@ func LinkOf(data []byte) cid.Cid {
 
 // Req describes one request that reached a publisher server.
 type Req struct {
+	Host     string // host the request was sent to
 	Seq      int    // arrival order at this publisher
 	Kind     string // wk, wk-legacy, head, block, other
 	Cid      cid.Cid
@@ -343,6 +344,8 @@ type Pub struct {
 	// then used through libp2p-HTTP); otherwise well-known answers 404 and the
 	// client falls back to plain HTTP.
 	Discovery bool
+	// ExtraHosts are further host:port names served by the same handler.
+	ExtraHosts []string
 	// Script decides the fault for a request (nil = none).
 	Script func(r *Req) *Fault
 	// Gate, when set, is called for every request before it is answered
@@ -355,6 +358,15 @@ type Pub struct {
 	stop   func()
 }
 
+// AddHost makes the publisher reachable under a second host name (same
+// handler, same log).
+func (p *Pub) AddHost(hostport string) {
+	stop := p.W.Net.Serve(hostport, p)
+	old := p.stop
+	p.stop = func() { stop(); old() }
+	p.ExtraHosts = append(p.ExtraHosts, hostport)
+}
+
 // Addr returns the publisher's HTTP multiaddr.
 func (p *Pub) Addr() multiaddr.Multiaddr {
 	host := strings.Split(p.Host, ":")
@@ -363,7 +375,12 @@ func (p *Pub) Addr() multiaddr.Multiaddr {
 
 // AddrInfo returns the peer.AddrInfo a caller would pass to the subscriber.
 func (p *Pub) AddrInfo() peer.AddrInfo {
-	return peer.AddrInfo{ID: p.Ident.ID, Addrs: []multiaddr.Multiaddr{p.Addr()}}
+	ai := peer.AddrInfo{ID: p.Ident.ID, Addrs: []multiaddr.Multiaddr{p.Addr()}}
+	for _, h := range p.ExtraHosts {
+		hp := strings.Split(h, ":")
+		ai.Addrs = append(ai.Addrs, multiaddr.StringCast(fmt.Sprintf("/dns4/%s/tcp/%s/http", hp[0], hp[1])))
+	}
+	return ai
 }
 
 // Requests returns a copy of the request log.
@@ -384,7 +401,7 @@ func (p *Pub) ResetLog() {
 const wkBody = `{"/ipni/v1/ad":{"path":"/ipni/v1/ad/"}}`
 
 func (p *Pub) ServeHTTP(w http.ResponseWriter, r *http.Request) {
-	req := Req{Path: r.URL.Path, Schema: r.Header.Get(ipnisync.CidSchemaHeader)}
+	req := Req{Host: r.Host, Path: r.URL.Path, Schema: r.Header.Get(ipnisync.CidSchemaHeader)}
 	pth := r.URL.Path
 	switch {
 	case pth == "/.well-known/libp2p/protocols":
